@@ -96,7 +96,8 @@ def ev_cache():
 
 
 def ev_warm():
-    for s in ['154n97w14', '154s97e14', '154n97e14', '1154n97w14', '154n97w', '', '154nXXXz14', 'XXXzXXXzXX', '154n97w01']:
+    for s in ['154n97w14', '154s97e14', '154n97e14', '1154n97w14', '154n97w', '', '154nXXXz14', 'XXXzXXXzXX', '154n97w01',
+              '154n97wXX', '___z97w__', '154N97W14']:
         _p.TRS(s)
         _p.Tract('w', trs=s)
 
